@@ -11,7 +11,8 @@ Case line:   dist <cfg> <cfg> … | <program in the format of tools/jdfgen.py to
         cores  computing threads per process
 Observation (both sides), one chunk per configuration, joined by " || ":
   <cfg> ok n=<N> <Class(params)@rank:r<flow>=<v>,…:w<flow>=<v>,…> … D=<v0>,<v1>,…      sorted by class index, parameters
-  <cfg> failed:<abort|timeout|incomplete>
+  <cfg> failed            (abort, timeout or incomplete logs: which one is in the check's log; the relay-lacks-output
+                          class aborts in MPI_Isend most of the time and hangs otherwise)
 """
 import concurrent.futures
 import os
@@ -96,7 +97,7 @@ def parse_listing(txt):
     for m in LIST_RE.finditer(txt):
         ps = tuple(int(x) for x in m.group(2).split(",")) if m.group(2) else ()
         items.append((m.group(1), ps, int(m.group(3)), parse_vals(m.group(4)), parse_vals(m.group(5))))
-    dm = re.search(r" D=([-0-9,?]*)", txt)
+    dm = re.search(r" D=([-0-9,?*]*)", txt)
     data = dm.group(1).split(",") if dm and dm.group(1) else []
     return items, data
 
@@ -105,15 +106,15 @@ class C05(PtgCheck):
     id = "C05"
     prop_file = "theories/Properties/Properties_C05.v"
     theorems = ("C05_runs_once_on_owner", "C05_inputs_equal_sequential_reference", "C05_outputs_equal_sequential_reference",
-                "C05_no_lost_activation", "C05_complete_run_matches_seq_exec", "C05_no_failure", "C05_step_local",
-                "C05_seq_exec_is_reference", "C05_protocol_independent_refuted_without_relay_holds",
-                "C05_c13_tree_refuted", "C05_engine_generic")
+                "C05_received_values", "C05_no_failure", "C05_no_lost_activation", "C05_complete_run_matches_seq_exec",
+                "C05_step_local", "C05_seq_exec_is_reference", "C05_engine_generic",
+                "C05_refuted_without_relay_holds", "C05_c13_tree_refuted")
     comp = "ptgdist"
     extract_file = "theories/Extract/Extract_PTGDist.v"
     extracted = ("ptgdist",)
     mode = "dist"
     jobs = int(os.environ.get("VERIF_C05_JOBS", "3"))
-    run_timeout = int(os.environ.get("VERIF_PTG_TIMEOUT", "90"))
+    run_timeout = int(os.environ.get("VERIF_PTG_TIMEOUT", "60"))
     level_text = ("Theorems over the JDF AST of PTG/PTGDefs.v extended with values, a placement rank_of : instance -> rank, per-rank "
                   "engine state (every step at rank r touches only the tasks r owns, the values r received and the channels of r), "
                   "Send/Deliver steps over per-pair FIFO channels with arbitrary delay, one activation per producer and destination "
@@ -211,18 +212,18 @@ class C05(PtgCheck):
             if rc in (0, 124) or started:
                 break                      # a failure before any rank opened its log happened in MPI_Init/mpiexec start-up
         if rc == 124:
-            return "failed:timeout", e
+            return "failed", "(timeout) " + e
         if rc != 0:
-            return "failed:abort", e
+            return "failed", "(abort rc=%d) " % rc + e
         items, data, extra = [], ["?"] * prog.ndata, ""
         names = {c.name: i for i, c in enumerate(prog.classes)}
         for r in range(cfg["np"]):
             try:
                 txt = open(os.path.join(wd, "%s.%d" % (prefix, r))).read()
             except OSError:
-                return "failed:incomplete", e
+                return "failed", "(incomplete logs) " + e
             if "END rc=0" not in txt:
-                return "failed:incomplete", e
+                return "failed", "(incomplete logs) " + e
             for line in txt.splitlines():
                 if line.startswith("I "):
                     f = [x.strip() for x in line.split(";")]
@@ -240,6 +241,9 @@ class C05(PtgCheck):
                     w = line.split()
                     if w[1] != "0" or w[3] != "0":
                         extra += " rank%d:oor=%s,remote=%s" % (r, w[1], w[3])
+        for x in jdfdist.unspecified_elements(prog):
+            if 0 <= x < prog.ndata and data[x] != "?":
+                data[x] = "*"
         return "ok " + listing(prog, items, data) + extra, e
 
     def one_case(self, tag, i, case):
@@ -256,8 +260,8 @@ class C05(PtgCheck):
             res, err = self.run_dist(exe, prog, c, k)
             if not res.startswith("ok "):
                 allok = False
-                log("%s: case %d cfg %s -> %s; stderr tail: %s" % (self.id, i, c["txt"], res,
-                                                                   " | ".join(l for l in err.strip().splitlines()[-12:] if "***" in l or "rror" in l)[-500:]))
+                log("%s: case %d cfg %s -> %s %s" % (self.id, i, c["txt"], res, err[:40] + " | ".join(
+                    l for l in err.strip().splitlines()[-12:] if "***" in l or "rror" in l)[-500:]))
             chunks.append("%s %s" % (c["txt"], res))
         if allok and not os.environ.get("VERIF_KEEP"):
             shutil.rmtree(wd, ignore_errors=True)
@@ -299,7 +303,9 @@ class C05(PtgCheck):
         out = []
         quick = self.tier == "quick"
         # the directed relay-lacks-output case (KNOWN candidate finding F8): default chain broadcast, 3 ranks
-        out.append("dist 3:cyc:1:d:64:2 | " + jdfgen.to_case(jdfdist.f8_program()))
+        # (VERIF_C05_NO_F8=1 leaves it out: a debugging aid to look at everything else while the finding is not yet listed)
+        if not os.environ.get("VERIF_C05_NO_F8"):
+            out.append("dist 3:cyc:1:d:64:2 | " + jdfgen.to_case(jdfdist.f8_program()))
         # the same program where the property holds: star, binomial (N=3), and 1 process
         out.append("dist 3:cyc:0:0:64:1 3:cyc:2:d:640:2 1:cyc:1:d:64:2 | " + jdfgen.to_case(jdfdist.f8_program()))
         nprog = 4 if quick else 60
@@ -387,13 +393,11 @@ class C05(PtgCheck):
         for cf, ch in zip(cfgs, chunks):
             tag = "[%s]" % cf["txt"]
             body = ch[len(cf["txt"]) + 1:] if ch.startswith(cf["txt"] + " ") else ch
-            if body.startswith("failed:"):
-                kind = body.split(":", 1)[1].split()[0]
+            if body.startswith("failed"):
                 if jdfdist.relay_lacks_output(p, cf["place"], cf["np"], cf["bcast"]):
-                    return ("relay-lacks-output", "%s run did not complete (%s): a consumer of an output is activated through a relay "
-                            "that does not hold it (runtime_comm_coll_bcast=%d, %d ranks)" % (tag, kind, cf["bcast"], cf["np"]))
-                return ({"timeout": "hang", "abort": "crash"}.get(kind, "incomplete"),
-                        "%s run did not complete (%s): not every process terminated" % (tag, kind))
+                    return ("relay-lacks-output", "%s run did not complete (abort or hang): a consumer of an output is activated through "
+                            "a relay that does not hold it (runtime_comm_coll_bcast=%d, %d ranks)" % (tag, cf["bcast"], cf["np"]))
+                return ("did-not-complete", "%s run did not complete (abort, hang or missing logs): not every process terminated" % tag)
             if not body.startswith("ok "):
                 return ("noobs", "%s unparsable chunk %s" % (tag, body[:80]))
             items, dobs = parse_listing(body)
